@@ -312,9 +312,8 @@ theorem s128_eq (x : BitVec 64) : s128h x = sq128h x ∧ s128l x = sq128l x := b
     Avx512.add_epi64, Avx512.and_si512, V8.get_map2, V8.get_map, V8.get_splat, get_set_same, g_sqmask8, and_self]
 
 theorem square512_spec (a : V8) (i : Fin 8) :
-    ((square_avx512 a).1.get i).toNat % P = ((a.get i).toNat * (a.get i).toNat) % P ∧ (square_avx512 a).2 = a := by
-  refine ⟨?_, rfl⟩
-  have e : (square_avx512 a).1.get i =
+    ((square_avx512 a).get i).toNat % P = ((a.get i).toNat * (a.get i).toNat) % P := by
+  have e : (square_avx512 a).get i =
       (reduce_avx512_128_64 (square_avx512_128 a).1 (square_avx512_128 a).2).get i := by
     simp only [square_avx512]
   rw [e, reduce512_128_spec, (square512_128_get a i).1, (square512_128_get a i).2, (s128_eq _).1, (s128_eq _).2,
